@@ -1,6 +1,6 @@
 (* C03 - Every valid MQTT v5.0 frame is accepted and decoded to the values it carries. *)
 From MQ Require Import Model.Stream Model.Api Proofs.BytesP Proofs.VbP Proofs.WireP Proofs.StreamP Proofs.SpecP
-     Proofs.SpecWireP Proofs.AcceptP Proofs.RoundP Proofs.PropsP Spec.Mqtt5 Spec.Glue.
+     Proofs.SpecWireP Proofs.AcceptP Proofs.RoundP Proofs.PropsP Proofs.SpecRoundP Spec.Mqtt5 Spec.Glue.
 From Coq Require Import Lia.
 
 (* The full statement (Findings/C03_disconnect.v, C03_full) is refuted by
@@ -36,6 +36,17 @@ Proof.
   - rewrite Hsb. cbn [app]. rewrite <- app_assoc. reflexivity.
 Qed.
 Print Assumptions C03_valid_frames.
+
+(* the frames of the theorem are what the specification's strict decoder
+   accepts: for every abstract frame valid in the specification's own terms
+   ([sframe_ok], Proofs/SpecRoundP.v - it adds to [frame_ok] only checks the
+   library does not need: non-empty filter and reason-code lists,
+   subscription-option bits, CONNECT's reserved and will bits, and it lifts
+   the DISCONNECT restriction), the decoder returns exactly that frame from
+   the encoder's bytes *)
+Theorem C03_spec_consistent : forall f, sframe_ok f -> spec_decode (spec_encode f) = Some f.
+Proof. exact spec_roundtrip. Qed.
+Print Assumptions C03_spec_consistent.
 
 (* the hypothesis is inhabited, and such frames are what the specification's
    strict decoder accepts: a CONNACK with properties out of table order and an
